@@ -208,6 +208,10 @@ func (c *FnCtx) callFunc(x *ast.CallExpr, fobj *types.Func, recvExpr ast.Expr, s
 	}
 	// interface method call
 	if recvExpr != nil && isIface(sig.Recv().Type()) {
+		if m, ok := libModels[key]; ok {
+			recv, args := c.evalArgs(x, fobj, recvExpr, st)
+			return m(c, x, fobj, append([]string{recv}, args...), st)
+		}
 		if con := c.prog.Contracts[key]; con != nil {
 			recv, args := c.evalArgs(x, fobj, recvExpr, st)
 			return c.callByContract(con, fobj, recv, args, st, x.Pos())
@@ -1073,6 +1077,7 @@ func (c *FnCtx) checkPost(st *State, vals []string, pos token.Pos) {
 		c.oblige(st, "reach", "reach@"+c.retSite, "false", pos, "return site reachable: "+c.retSite)
 		c.curProp = save
 	}
+	c.framePost(st, pos)
 	saveOld := c.oldState
 	c.oldState = c.entry
 	for i, cl := range c.con.Ensures {
@@ -1083,8 +1088,11 @@ func (c *FnCtx) checkPost(st *State, vals []string, pos token.Pos) {
 		if lbl == "" {
 			lbl = fmt.Sprint(i)
 		}
+		nBefore := len(c.obls)
 		c.oblige(st, "post", "post["+lbl+"]@"+c.retSite, g, pos, cl.Text)
-		c.obls[len(c.obls)-1].ResultTerms = vals
+		for _, o := range c.obls[nBefore:] {
+			o.ResultTerms = vals
+		}
 		c.curProp = save
 	}
 	c.oldState = saveOld
@@ -1265,4 +1273,59 @@ func (c *FnCtx) scanCallWrites(x *ast.CallExpr, li *loopInfo) {
 		return
 	}
 	li.heapAll = true
+}
+
+// framePost: at a return, every object that existed at entry has the field / map / cell contents it had at
+// entry, except the locations listed in `modifies` (element arrays are covered by the per-store checks).
+func (c *FnCtx) framePost(st *State, pos token.Pos) {
+	if !c.frameOn || c.con == nil || c.con.ModHeap || !c.con.ModGiven || c.unroll > 0 {
+		return
+	}
+	entryAlloc := c.heapName("alloc", 0)
+	c.declare(entryAlloc, "(Array Int Bool)")
+	var goals []string
+	for _, base := range sortedKeys(c.heapSort) {
+		if !(strings.HasPrefix(base, "F!") || strings.HasPrefix(base, "MD!") || strings.HasPrefix(base, "MV!") || strings.HasPrefix(base, "C!")) {
+			continue
+		}
+		srt := c.heapSort[base]
+		cur := c.h(st, base, srt)
+		ent := c.heapName(base, 0)
+		if cur == ent {
+			continue
+		}
+		c.declare(ent, srt)
+		exc := []string{}
+		for _, m := range c.con.Modifies {
+			switch m.Kind {
+			case "field":
+				ot := c.synthResultType(m.GoFn, c.pkg)
+				if pt, ok := ot.Underlying().(*types.Pointer); ok {
+					if n, _ := c.fieldArr(pt.Elem(), m.Fld); n == base {
+						exc = append(exc, not(eq("r", c.evalModObj(m))))
+					}
+				}
+			case "mapall":
+				ot := c.synthResultType(m.GoFn, c.pkg)
+				if mt, ok := ot.Underlying().(*types.Map); ok {
+					dn, _, vn, _ := c.mapArrs(mt)
+					if dn == base || vn == base {
+						exc = append(exc, not(eq("r", c.evalModObj(m))))
+					}
+				}
+			case "cell":
+				ot := c.synthResultType(m.GoFn, c.pkg)
+				if pt, ok := ot.Underlying().(*types.Pointer); ok {
+					if n, _ := c.cellArr(pt.Elem()); n == base {
+						exc = append(exc, not(eq("r", c.evalModObj(m))))
+					}
+				}
+			}
+		}
+		goals = append(goals, "(forall ((r Int)) "+implies(and(append([]string{sel(entryAlloc, "r")}, exc...)...), eq(sel(cur, "r"), sel(ent, "r")))+")")
+	}
+	save := c.curProp
+	c.curProp = c.frameProp()
+	c.oblige(st, "frame", "frame@"+c.retSite, and(goals...), pos, "objects that existed at entry are unchanged (modifies clause)")
+	c.curProp = save
 }
